@@ -62,6 +62,19 @@ struct Problem {
     }
 };
 
+// a preconditioner that fails after a given number of applications: "earlier calls that threw" in the middle of a solve
+template <class P>
+struct ThrowAfter {
+    typedef typename P::backend_type backend_type;
+    const P &p; mutable int left;
+    ThrowAfter(const P &p, int n) : p(p), left(n) {}
+    template <class V1, class V2> void apply(const V1 &r, V2 &&x) const {
+        if (--left < 0) throw std::runtime_error("injected preconditioner failure");
+        p.apply(r, x);
+    }
+    auto system_matrix() const -> decltype(p.system_matrix()) { return p.system_matrix(); }
+};
+
 template <class Solver, class Precond>
 struct SolverKind {
     typedef Solver Obj;
@@ -99,12 +112,16 @@ struct SolverKind {
     }
 
     Outcome solve(Solver &S, const Crs *Aalt, const std::vector<V> &f, const std::vector<V> &x0, bool zero_rhs, bool conv_guess) const {
+        return solve_p(S, *P, Aalt, f, x0, zero_rhs, conv_guess);
+    }
+    template <class PP>
+    Outcome solve_p(Solver &S, const PP &PPobj, const Crs *Aalt, const std::vector<V> &f, const std::vector<V> &x0, bool zero_rhs, bool conv_guess) const {
         Outcome o;
         NV<V> rhs(f), x(x0);
         size_t it = 0; double res = 0;
         try {
-            if (Aalt) std::tie(it, res) = S(*Aalt, *P, rhs, x);
-            else      std::tie(it, res) = S(*P, rhs, x);
+            if (Aalt) std::tie(it, res) = S(*Aalt, PPobj, rhs, x);
+            else      std::tie(it, res) = S(PPobj, rhs, x);
         } catch (const std::exception &e) { o.status = 1; o.what = e.what(); }
         o.iters = it; o.put(&res, 1); o.put(&x[0], x.size());
         if (!same_bytes(rhs, f)) o.notes.push_back({"rhs_modified", "the right-hand side vector was written to"});
@@ -138,6 +155,12 @@ struct SolverKind {
             o.run = [this, a, fk, xk](Obj &S) { return solve(S, a, pb.f[fk], pb.x0[fk][xk], fk == F_ZERO, false); };
             op.push_back(o);
         };
+        // solves whose preconditioner throws after N applications (N = 2: first cycle; 9, 19: after restarts / several iterations)
+        for (int N : {2, 9, 19}) {
+            Op<Obj> o; o.name = std::string("solve_with_precond_failing_after_") + std::to_string(N) + "(gen2,ramp)";
+            o.run = [this, N](Obj &S) { ThrowAfter<Precond> T(*P, N); return solve_p(S, T, nullptr, pb.f[F_GEN2], pb.x0[F_GEN2][X_RAMP], false, false); };
+            op.push_back(o);
+        }
         alt("A1", pb.a1, F_GEN, X_ZERO); alt("A1", pb.a1, F_GEN, X_RAMP); alt("A2", pb.a2, F_GEN2, X_ZERO);
         alt("Ashift", pb.ash, F_E1, X_ZERO); alt("Ashift", pb.ash, F_GEN, X_RAMP); alt("Aemptyrow", pb.aempty, F_GEN, X_ZERO); alt("Azero", pb.azero, F_GEN, X_ZERO);
     }
